@@ -158,7 +158,7 @@ func (e *Engine) calleeKeepsMemory(cc *ssa.CallCommon) bool {
 	case *ssa.Function:
 		p := originPkgPath(callee)
 		if strings.HasPrefix(p, repoPrefix) {
-			if fc := e.ctx.callContractOf(callee); fc != nil {
+			if fc := e.callContractOf(callee); fc != nil {
 				return len(fc.Assigns) == 0
 			}
 			return strings.HasPrefix(callee.Name(), "spec")
@@ -411,7 +411,7 @@ func (e *Engine) callFunc(f *frame, st *State, callee *ssa.Function, bind []Val,
 	display := fnDisplayName(callee)
 	// a callee declared `pure` is a deterministic function of its arguments: at call sites (in code and in specs alike)
 	// it is an uninterpreted function application; its own contract, verified separately, says what it computes
-	if fc := e.ctx.callContractOf(callee); fc != nil && fc.Pure && callee != e.top {
+	if fc := e.callContractOf(callee); fc != nil && fc.Pure && callee != e.top {
 		if v, ok := e.pureApp(callee, args, st); ok {
 			e.trustedUsed["pure function (deterministic, no side effects): "+callee.String()] = true
 			return v, st, reach
@@ -419,7 +419,7 @@ func (e *Engine) callFunc(f *frame, st *State, callee *ssa.Function, bind []Val,
 	}
 	// contract of the callee (modular reasoning)
 	// (closures are executed in the context of their parent; their own contract is checked when they are verified standalone)
-	if fc := e.ctx.callContractOf(callee); fc != nil && callee != e.top && callee.Parent() == nil && e.pure == 0 && !e.cfg.Inline[display] && !e.cfg.Inline[name] {
+	if fc := e.callContractOf(callee); fc != nil && callee != e.top && callee.Parent() == nil && e.pure == 0 && !e.cfg.Inline[display] && !e.cfg.Inline[name] {
 		return e.callContract(f, st, callee, fc, args, sig, reach, pos)
 	}
 	inlineOK := callee.Blocks != nil && e.inlineDepth < 5 && !e.cfg.Havoc[display] && !e.cfg.Havoc[name] && !e.ctx.neverInline(callee) && !e.noInline[staticFullName(callee)]
